@@ -201,6 +201,30 @@ def unary_ops(b, sp):
                 and list(groups[0]) == sorted(groups[0]) else None
             return (y,) + ((back,) if back is not None else ())
 
+        def fu_drop(ev, x, groups=groups):
+            """fuse, lose the blocks of one fused charge (multiply_diagonal with that vector block missing), shrink the tables"""
+            y = w.meth(ev, x, "fuse", *groups)
+            out = [y]
+            for ax in _fused_axes(y):
+                cm = y.fields["_indices"][ax].fields["_chargemap"]
+                if len(cm) < 2:
+                    continue
+                v = Obj(prog.cls("BlockVector"), {"_blocks": {c: STok(("v", c), (d,)) for c, d in list(cm.items())[1:]}})
+                z = w.meth(ev, y, "multiply_diagonal", v, ax)
+                z = w.meth(ev, z, "sync_charges")
+                out += [z, w.meth(ev, z, "unfuse", ax)]
+            return tuple(out)
+
+        def fu_again(ev, x, groups=groups):
+            """the same grouping on the array, its conjugate and its transpose-back within one session (shared fuse-plan cache)"""
+            y1 = w.meth(ev, x, "fuse", *groups)
+            xc = w.meth(ev, x, "conj")
+            y2 = w.meth(ev, xc, "fuse", *groups)
+            y3 = w.meth(ev, w.meth(ev, xc, "conj"), "fuse", *groups)
+            return (y1, y2, y3)
+
+        ops.append(("V3", f"fuse{gname} then conj.fuse{gname} (one session)", m("fuse"), fu_again))
+        ops.append(("V3", f"fuse{gname}.multiply_diagonal(missing).sync_charges.unfuse", m("sync_charges"), fu_drop))
         ops.append(("V3", f"fuse{gname}.unfuse_all", m("unfuse_all"), fu_all))
         ops.append(("V3", f"fuse{gname}.unfuse(each)", m("unfuse"), fu_each))
         ops.append(("V3", f"fuse{gname}.fuse(all).unfuse", m("fuse"), fu_twice))
@@ -208,7 +232,7 @@ def unary_ops(b, sp):
         ops.append(("V3", f"fuse{gname}.transpose.unfuse_all", m("transpose"), fu_tr))
         ops.append(("V3", f"fuse{gname}.reshape(back)", m("reshape"), fu_reshape))
     if sp.fermionic:
-        first = sp.sectors()[0]
+        first = (sp.sectors() or [None])[0]
         ops += [
             ("V6", "phase_sync", m("phase_sync"), lambda ev, x: w.meth(ev, x, "phase_sync")),
             ("V6", "phase_sync(inplace)", m("phase_sync"), lambda ev, x: w.meth(ev, x, "phase_sync", inplace=True)),
@@ -245,8 +269,9 @@ def binary_ops(b, sp):
         for nfree in (0, 1, 2):
             if ncon + nfree == 0 or ncon + nfree > 4:
                 continue
-            for pdrop in ("none", "alternate"):
-                other = partner(sp, ncon, nfree, drop=pdrop)
+            for pdrop, pch in (("none", "identity"), ("alternate", "charged"), ("alternate", "identity")):
+                model = Model(sp.sym)
+                other = partner(sp, ncon, nfree, drop=pdrop, charge=(model.combine() if pch == "identity" else NONTRIVIAL[sp.sym]))
                 if other is None:
                     continue
                 axes = (tuple(range(nd - ncon, nd)), tuple(range(ncon)))
@@ -366,11 +391,23 @@ def chains(b, sp, first_ops, second_for):
             b.run("V7", f"{n1} ; {n2}", a2, sp, prog2, refusal_ok=True)
 
 
-CHAIN_SKIP_FIRST = (" mode=", "inplace", ".unfuse", ".fuse(all)", ".reshape", ".conj.", ".transpose.", "squeeze", "odd charge", "copy")
-CHAIN_SKIP_SECOND = (" mode=", "inplace", "phase_sector", ".fuse(all)", ".reshape", ".conj.", ".transpose.", "(each)", "odd charge", "copy")
+CHAIN_SKIP_FIRST = (" mode=", "inplace", ".unfuse", "multiply_diagonal", "one session", ".fuse(all)", ".reshape", ".conj.", ".transpose.", "squeeze", "odd charge", "copy")
+CHAIN_SKIP_SECOND = (" mode=", "inplace", "phase_sector", "multiply_diagonal", "one session", ".fuse(all)", ".reshape", ".conj.", ".transpose.", "(each)", "odd charge", "copy")
 
 
 def _job(state, job):
+    try:
+        return _job_inner(state, job)
+    except AnalysisError:
+        raise
+    except Exception as e:  # a defect of the battery itself must not look like a verdict
+        import traceback
+
+        raise AnalysisError(f"battery failed on job {job[0]} {job[1].describe() if job[1] is not None else ''}: "
+                            f"{type(e).__name__}: {e} :: {traceback.format_exc(limit=4)}")
+
+
+def _job_inner(state, job):
     """one unit of work on a forked worker: returns (results, number of programs)"""
     prog, tier = state
     kind, sp = job
@@ -446,8 +483,9 @@ def run(prog, ctx):
         jobs += [("binary", sp) for sp in universe if sp.sym != "Z2Z2" and (sp.drop == "alternate" or sp.ndim <= 2)]
         chain_specs = [sp for sp in universe if sp.ndim in (2, 3) and sp.drop == "alternate" and sp.sym in ("Z2", "U1")][:8]
     else:
-        jobs += [("binary", sp) for sp in universe if sp.drop in ("none", "alternate")]
+        jobs += [("binary", sp) for sp in universe if sp.drop in ("none", "alternate") and (sp.ndim <= 3 or sp.sym in ("Z2", "U1"))]
         chain_specs = [sp for sp in universe if sp.ndim in (2, 3) and sp.drop == "alternate"]
+        chain_specs = chain_specs[:: max(1, len(chain_specs) // 48)]
     jobs += [("square", sp) for sp in square_specs(tier)]
     jobs += [("solve", None)]
     jobs += [("chain", sp) for sp in chain_specs]
